@@ -149,6 +149,9 @@ func (req *request) Unmarshal(data []byte) (offset uint64, err error) {
 		n = 1
 	}
 	offset += n
+	if offset > uint64(len(data)) {
+		return 0, errMalformedHeader
+	}
 	return offset, nil
 }
 
@@ -258,5 +261,8 @@ func (res *response) Unmarshal(data []byte) (offset uint64, err error) {
 		n = 1
 	}
 	offset += n
+	if offset > uint64(len(data)) {
+		return 0, errMalformedHeader
+	}
 	return offset, nil
 }
